@@ -44,6 +44,13 @@ CHECKS["C10"] = dict(engine="annotate", design="4 C10", technique="TLA+ model ch
    text=_ann + "C10 clauses: exact enclosure under forced alignment, annotations in order, translation monotone and in range for arbitrary string pairs.", note=ANN_NOTE)
 CHECKS["C11"] = dict(engine="annotate", design="4 C11", technique="TLA+ model checking of Annotate.tla (WellFormedOut, WrapKeepsAll) + replay of all well-formed markups <= 8 tokens + TLC trace validation with lxml's verdict",
    text=_ann + "C11 clauses (premise: source well-formed, plain = its text content): output well-formed per lxml, text content unchanged, wrap keeps every annotation.", note=ANN_NOTE)
+CHECKS["C20"] = dict(engine="clean", design="4 C20", technique="TLA+ model checking of Clean.tla (TLC) + bounded-exhaustive replay through the real cleaners + TLC trace validation",
+   text=("Clean.tla transcribes the three regex cleaners over six character classes, clean_text as a fold with ValueError, and the html cleaner over properly nested "
+         "token documents (div/p/i/script/style/head/link, blank and non-blank text, entities). TLC checks idempotence, no-run-left, other-characters-kept for every text of "
+         "<= 6 (thorough 8) characters and the composition law for every split of every step list; every emitted text (two concretisations) and document is run through "
+         "the real cleaners and TLC judges the recorded outputs (incl. clean_text(t, s) vs step-by-step for all lists of <= 3 steps with repeats and unknown names, and "
+         "html() = visible text nodes joined by spaces) and compares class images with the model."),
+   note="Trusted: TLC + Json module; class representatives (harness/drv_clean.py); lxml's HTML parser defines what a text node is (documents avoid leading whitespace in text nodes, <title>, empty input).")
 NA_REASON = "check not built yet (work in progress; see DESIGN.md section 10 build order)"
 checks = []
 for p in props:
@@ -65,6 +72,8 @@ m = {"version": 1,
               "serves_properties": ["C06", "C07", "C08"], "kind_free_text": "TLA+ spec, TLC model checking, transition replay, TLC trace validation"},
              {"name": "tokenize", "path": "spec/Tokenize.tla spec/MC_Tokenize.tla spec/Trace_Tokenize.tla harness/chk_tokenize.py harness/drv_tokenize.py harness/gendocs.py",
               "serves_properties": ["C12"], "kind_free_text": "TLA+ spec, TLC model checking, configuration replay, TLC trace validation"},
+             {"name": "clean", "path": "spec/Clean.tla spec/MC_Clean.tla spec/Trace_Clean.tla harness/chk_clean.py harness/drv_clean.py",
+              "serves_properties": ["C20"], "kind_free_text": "TLA+ spec, TLC model checking, exhaustive replay, TLC trace validation"},
              {"name": "annotate", "path": "spec/Annotate.tla spec/SpanUpdater.tla spec/MC_Annotate.tla spec/MC_SpanUpdater.tla spec/Trace_Annotate.tla spec/Trace_SpanUpdater.tla harness/chk_annotate.py harness/drv_annotate.py",
               "serves_properties": ["C09", "C10", "C11"], "kind_free_text": "TLA+ spec, TLC model checking, configuration replay, TLC trace validation"}],
  "checks": checks,
